@@ -203,11 +203,21 @@ def build(case):
         for l in after_lines:
             doc.add(depth + (0 if l.split()[0] in ("END", "NEXT", "WEND") else 0), l)
 
+    def helper_calls(doc, depth):
+        # calls that have returned by the time the fault happens: the call stack must not remember them
+        n = case.get("helpers", 0)
+        if n >= 1:
+            doc.add(depth, "ZS9 1")
+        if n >= 2:
+            doc.add(depth, "Q8% = ZF9%(2)")
+            doc.add(depth, 'Q8% = LEN("ab")')
+
     def scope_body(level, doc, depth):
         """body of the scope at `level` (0 = main ... len(chain) = the fault's scope)"""
         if level == len(chain):
             for s in setup:
                 doc.add(depth, s)
+            helper_calls(doc, depth)
             if case.get("prior"):
                 doc.add(depth, "Q9% = 1 / Z9%")
                 doc.add(depth, "ON ERROR GOTO 0")
@@ -225,6 +235,7 @@ def build(case):
         def site(doc, depth):
             doc.lines.append((depth, [(("IF 1 = 1 THEN " if cs == "oneline" else "") + call, "site%d" % level)], None))
         doc.add(depth, 'PRINT "in %d"' % level)
+        helper_calls(doc, depth)
         wrap(doc, depth, [] if cs in ("none", "oneline") else [cs], site, 5)
         doc.add(depth, 'PRINT "back %d"' % level)
 
